@@ -513,9 +513,9 @@ func propC09(c *Ctx) int {
 
 func propC06(c *Ctx) int {
 	thorough := c.Tier == "thorough"
-	docs := []int64{0, 1, 2, 3, 4, 5, 6, 7, 8, 9, 10, 11, 12, 14}
+	docs := []int64{0, 1, 2, 3, 4, 5, 6, 7, 8, 9, 10, 11, 12, 13, 15}
 	if thorough {
-		docs = []int64{0, 1, 2, 3, 4, 5, 6, 7, 8, 9, 10, 11, 12, 13, 14, 15, 16}
+		docs = []int64{0, 1, 2, 3, 4, 5, 6, 7, 8, 9, 10, 11, 12, 13, 14, 15, 16, 17}
 	}
 	totalSites := 0
 	for _, doc := range docs {
@@ -536,7 +536,7 @@ func propC06(c *Ctx) int {
 		"dynamic part: each project is built with insertion-ordered maps and built again with ONE range-over-map site (sites numbered in execution order, in the repository and in jsight-schema-core alike) iterating in a symbolic order — a full symbolic permutation (Lehmer code) for maps of <= 4 entries, a symbolic rotation + optional reversal above; every execution of that site uses the same symbolic order; the solver looks for an order that changes accept/reject, message, file, index, include trace or the catalog digest",
 		"prior builds (HRebuild): two projects at the SAME paths, differing in the symbolic names written in the root file and in an included file (the first one optionally failing), built one after the other in one process (one interpreter world: package-level variables persist): the second catalog says exactly what the second project says",
 		"outside the encoding: builds running CONCURRENTLY (the interpreter is sequential: no goroutine is ever started by the build code of the pinned tree; a go statement, channel operation or a store to a package-level variable outside init appears in the static list below and is not executed symbolically), separate processes, encoding/json",
-		fmt.Sprintf("projects: 12 determinism fixtures (user types in a reference cycle with faults in several members, with and without an ENUM; a Tags directive repeating one of three tags; a path repeating two different parameters; two servers/tags/enums/OperationIds; several enums/types/path variables/allOf; two independent faults; three recursive macros; property overrides; path parameters defined on several levels; a Path schema with two unused properties; two types using undefined types) + layout skeletons; %d (project, site) pairs this run", totalSites),
+		fmt.Sprintf("projects: 13 determinism fixtures (two faults found by two different final checks; user types in a reference cycle with faults in several members, with and without an ENUM; a Tags directive repeating one of three tags; a path repeating two different parameters; two servers/tags/enums/OperationIds; several enums/types/path variables/allOf; two independent faults; three recursive macros; property overrides; path parameters defined on several levels; a Path schema with two unused properties; two types using undefined types) + layout skeletons; %d (project, site) pairs this run", totalSites),
 		"interactions between the orders of two different sites, cross-process effects other than map order, and everything below json.Marshal are outside the claim; a counterexample is confirmed natively by rebuilding the project 200 times (Go randomises map iteration)",
 		"static part (evidence.coverage.static_scan): every range-over-map, time / math/rand / os.Getenv call and pointer-to-integer conversion in the repository's packages, from the SSA of the current tree",
 		contractRune,
